@@ -18,7 +18,7 @@ LEVEL_TEXT = ("Static value-provenance and ordering analysis of the witness extr
               "(right signal, right step, right polarity, complete and ordered lists) that a real counterexample rests on. No test executes this code offline. "
               "Replay semantics of the produced witness are not decided.")
 LEVEL_NOTE = "Assumes solver models are correct and get_signal_at/get_value do what their names say; decides shape, not values."
-TECHNIQUE = "value-provenance (def-use) and region/dominance rules on rustc HIR facts"
+TECHNIQUE = "value-provenance (def-use) and region/dominance rules on rustc HIR facts; the BMC loop-shell rules of C02 (constraints asserted before every query, queried bad states, pairing) are evaluated as prerequisites"
 
 
 def run(ctx):
